@@ -163,6 +163,7 @@ structure Linked (x : Nat) (va vb : EV) (fab fba : List Msg) : Prop where
   body : ∃ i j oA oB,
     va.slot = some (.established i) ∧ vb.slot = some (.established j) ∧
     va.objs i = some oA ∧ vb.objs j = some oB ∧ OnlyObj va i ∧ OnlyObj vb j ∧
+    oA.cap = va.opts.rwnd ∧ oB.cap = vb.opts.rwnd ∧
     (¬ va.dq → ¬ vb.dq →
       (∃ l, DirRel oA oB fab fba (va.wlog i) (vb.rlog j) (vb.eof j) l) ∧
       (∃ l, DirRel oB oA fba fab (vb.wlog j) (va.rlog i) (va.eof i) l))
@@ -216,8 +217,8 @@ theorem Dead.swap {x : Nat} {va vb : EV} {fab fba : List Msg} (h : Dead x va vb 
   ⟨h.rb, h.ra, h.nba, h.nab, h.gone.symm⟩
 
 theorem Linked.swap {x : Nat} {va vb : EV} {fab fba : List Msg} (h : Linked x va vb fab fba) : Linked x vb va fba fab := by
-  obtain ⟨i, j, oA, oB, h1, h2, h3, h4, h5, h6, h7⟩ := h.body
-  exact ⟨h.rb, h.ra, h.nba, h.nab, ⟨j, i, oB, oA, h2, h1, h4, h3, h6, h5, fun hb ha => (h7 ha hb).symm⟩⟩
+  obtain ⟨i, j, oA, oB, h1, h2, h3, h4, h5, h6, c1, c2, h7⟩ := h.body
+  exact ⟨h.rb, h.ra, h.nba, h.nab, ⟨j, i, oB, oA, h2, h1, h4, h3, h6, h5, c2, c1, fun hb ha => (h7 ha hb).symm⟩⟩
 
 theorem PhV.swap {x : Nat} {va vb : EV} {fab fba : List Msg} (h : PhV x va vb fab fba) : PhV x vb va fba fab := by
   rcases h with h | h | h | h | h | h | h
